@@ -50,9 +50,35 @@ def _disp_gen_nonce_64():
     return ctr.randint(1, 2 ** 64 - 1) if ctr is not None else _ORIG['gen_nonce_64']()
 
 
+class FixedClock:
+    """a wall clock that stands still (or advances by `step` seconds per reading)"""
+
+    def __init__(self, start=1_700_000_000.0, step=0.0):
+        self.t, self.step = start, step
+
+    def time(self):
+        self.t += self.step
+        return self.t
+
+
+class _ClockAdapter:
+    def __init__(self, clock):
+        self._c = clock
+
+    def time(self):
+        return self._c.time()
+
+    def time_ns(self):
+        return int(self._c.time() * 1e9)
+
+    def monotonic(self):
+        return self._c.time()
+
+
 @contextlib.contextmanager
-def owned_env(loop: VLoop, seed: int = 0):
-    """Own utils.timestamp() (virtual clock) and nonce generation for the duration of an execution."""
+def owned_env(loop: VLoop = None, seed: int = 0, clock=None):
+    """Own utils.timestamp() (virtual clock) and nonce generation for the duration of an execution.
+    `clock`: an object with time() (seconds) used instead of the virtual loop's clock (checks without an event loop)."""
     import sys as _sys
     import time as _time
     import random as _random
@@ -61,7 +87,7 @@ def owned_env(loop: VLoop, seed: int = 0):
     #     are process-wide dispatchers to the *current* environment: a module imported while an environment is active
     #     copies the dispatcher, and still follows the next execution's clock.
     prev_cur = dict(_CUR)
-    _CUR.update(ft=FakeTime(loop), ctr=Counter32(seed + 13))
+    _CUR.update(ft=FakeTime(loop) if clock is None else _ClockAdapter(clock), ctr=Counter32(seed + 13))
     repl = {}
     for fname, fn in (('timestamp', _disp_timestamp), ('gen_nonce', _disp_gen_nonce), ('gen_nonce_64', _disp_gen_nonce_64)):
         orig = getattr(ndn_utils, fname, None)
@@ -78,7 +104,7 @@ def owned_env(loop: VLoop, seed: int = 0):
                 setattr(mod, attr, repl[id(val)][1])
     old_time = getattr(ndn_utils, 'time', None)
     old_rand = getattr(ndn_utils, 'randint', None)
-    ft = FakeTime(loop)
+    ft = FakeTime(loop) if clock is None else _ClockAdapter(clock)
     ndn_utils.time = ft
     ndn_utils.randint = Counter32(seed).randint
     # whichever way the library reads the wall clock or draws a nonce, the harness owns it for the duration of the execution
